@@ -300,8 +300,12 @@ def facts(Ls, t):
         Rs = _dedupe([prod_right(rest), prod_left(rest)])
         for R in Rs:
             out += [LEM.inst("mulpos", L, R), LEM.inst("mulpos", L + L, R), LEM.inst("plain", t, R, L), LEM.inst("snake", t, R, L)]
+            # (the same two facts for a body that repeats after tiling: tile(w, T)[t div R] = w[(t div R) mod len w])
+            out += [LEM.inst("mod2L", t / R, L), LEM.inst("divdiv", t, L, R)]
         if len(Rs) == 2:
-            out.append(Rs[0] == Rs[1])
+            if len(rest) != 3:
+                raise EngineError("re-association of the repeat count is only set up for three faster axes (rank 4)")
+            out.append(LEM.inst("assoc", *rest))             # (a*b)*c = a*(b*c): numpy.prod's order vs the formula's R_i
         if not Rs:
             out.append(LEM.inst("mod2L", t, L))
         elif i > 0:
@@ -340,7 +344,44 @@ E_POS = f"{F}#ensures[at step t every key of axis i has the value v_i[pos_i(t)]]
 E_EXC = f"{F}#no-unlicensed-exception"
 
 
+def cover_at(w, name, *witness):
+    """vacuity guard: the path condition is satisfiable - decided at a concrete grid (lengths fixed by `witness`), where
+    the arithmetic is linear, so that the guard does not depend on the solver finding a non-linear model"""
+    cov = getattr(w, "covered", None)
+    if cov is None or name in cov:
+        return
+    if w._check(z3.And(*witness)) == z3.sat:
+        cov.add(name)
+
+
+_SPENT = {}      # task name -> [refuted obligations, undecided queries] so far (the paths of a task run in one process)
+
+
+def stop_early(w):
+    """Once a task has a counter-model (or two undecided queries) its verdict cannot improve by exploring further paths;
+    on a wrong body every further path costs several non-linear model searches, so the exploration ends there.
+    Never triggers on a tree that satisfies the contract."""
+    s = _SPENT.get(w.task_name, [0, 0])
+    if s[0] >= 1 or s[1] >= 2:
+        # (the cover points guard against vacuous *proofs*; the task is no proof any more, so they are not reported as missing)
+        getattr(w, "covered", set()).update({"plain product branch", "snaking branch"})
+        raise PathEnd("task already refuted / undecided")
+
+
+def note_results(w):
+    s = _SPENT.setdefault(w.task_name, [0, 0])
+    s[0] += sum(1 for r in w.results if r.status == "sat")
+    s[1] += sum(1 for r in w.results if r.status == "unknown")
+
+
 def check_f1(I, res, Lt, sn, vals, keys, t, N, rp, names=(E_N, E_KEYS, E_POS, E_EXC), posf=pos):
+    try:
+        _check_f1(I, res, Lt, sn, vals, keys, t, N, rp, names, posf)
+    finally:
+        note_results(I.w)
+
+
+def _check_f1(I, res, Lt, sn, vals, keys, t, N, rp, names, posf):
     w = I.w
     e_n, e_keys, e_pos, e_exc = names
     if res[0] == "raise":
@@ -359,7 +400,8 @@ def check_f1(I, res, Lt, sn, vals, keys, t, N, rp, names=(E_N, E_KEYS, E_POS, E_
         p = posf(t.t, Lt[i], R, sn[i].t)
         for j, key in enumerate(keys[i]):
             if key in out.cols:
-                w.check(e_pos, Sym(out.cols[key](t.t) == vals[i][j](p)), dict(rp, axis=i, key=j))
+                if not w.check(e_pos, Sym(out.cols[key](t.t) == vals[i][j](p)), dict(rp, axis=i, key=j)):
+                    return          # one witness per path is enough
 
 
 def _mk_f1(n, nkeys):
@@ -369,14 +411,16 @@ def _mk_f1(n, nkeys):
           covers=["plain product branch"] + (["snaking branch"] if n > 1 else []))
     def t_(I):
         w = I.w
+        stop_early(w)
         Ls, Lt, sn, vals, keys, cyclers, t, N = setup(I, n, nkeys)
         f = I.get_function(F)
         res = catch(I, f, cyclers, list(sn))
         seen = w.ghost.get("c26", [])
+        at = [L == 2 for L in Lt] + [t.t == 1]
         if "operator.mul" in seen:
-            w.cover("plain product branch")
+            cover_at(w, "plain product branch", *at)
         if "operator.add" in seen and "concatenate" in seen:
-            w.cover("snaking branch")
+            cover_at(w, "snaking branch", *at)
         check_f1(I, res, Lt, sn, vals, keys, t, N, {"replay": "snake.f1", "n": n, "nkeys": list(nkeys)})
 
 
@@ -395,6 +439,7 @@ def _mk_instance(n):
     @task(f"snake_cyclers.instances[n={n}]", PROP, functions=[F], bounded=INST_BOUND, expect=E_INST[:3])
     def t_(I):
         w = I.w
+        stop_early(w)
         Ls, Lt, sn, vals, keys, cyclers, t, N = setup(I, n, (1,) * n)
         for i in range(n):
             w.add(Ls[i] == w.choose([1, 2, 3], f"L{i}"))
@@ -439,7 +484,7 @@ def twin1(I):
         nxt = digit(t_, Lt[1], Lt[2])            # index of axis 1; the true count is index0 * L1 + index1
         return z3.If(z3.And(s, nxt % 2 == 1), L - 1 - d, d) if z3.eq(L, Lt[2]) else d
     check_f1(I, res, Lt, sn, vals, keys, t, N, {"replay": "snake.f1", "n": n, "nkeys": list(nkeys)},
-             names=("twin-aux:N", "twin-aux:keys", TW1, "twin-aux:exc"), posf=wrong)
+             names=("twin-aux:N", "twin-aux:keys", TW1, TW1), posf=wrong)
 
 
 @task("snake_cyclers.twin[off by one reflection]", PROP, functions=[F], twin=TW2)
@@ -454,7 +499,7 @@ def twin2(I):
         d = digit(t_, L, R)
         return z3.If(z3.And(s, slower(t_, L, R) % 2 == 1), L - d, d)
     check_f1(I, res, Lt, sn, vals, keys, t, N, {"replay": "snake.f1", "n": n, "nkeys": list(nkeys)},
-             names=("twin-aux:N", "twin-aux:keys", TW2, "twin-aux:exc"), posf=wrong)
+             names=("twin-aux:N", "twin-aux:keys", TW2, TW2), posf=wrong)
 
 
 # ================================================================================================ F2 / F3: consequences of the formula
@@ -509,7 +554,7 @@ def _mk_formula(n):
             for i in range(n):
                 add(LEM.inst("j1", X(t, R[i]), X(u, R[i]), Ls[i]))
                 add(pos(t, Ls[i], R[i], sn[i]) == pos(u, Ls[i], R[i], sn[i]))
-            w.cover("two steps with equal positions (hypotheses satisfiable)")
+            cover_at(w, "two steps with equal positions (hypotheses satisfiable)", *[L == 2 for L in Ls], t == 1)
             w.check(F2_INJ, Sym(t == u), rp)
             return
         p = [w.int(f"p{i}").t for i in range(n)]
@@ -527,7 +572,7 @@ def _mk_formula(n):
             if R[i] is not None:
                 add(LEM.inst("divdiv", t, Ls[i], R[i]))
         add(LEM.inst("small", t, Ls[0] * R[0]) if R[0] is not None else LEM.inst("small", t, Ls[0]))
-        w.cover("a grid point (hypotheses satisfiable)")
+        cover_at(w, "a grid point (hypotheses satisfiable)", *[L == 2 for L in Ls], *[p_ == 1 for p_ in p])
         w.check(F2_SURJ, Sym(z3.And(t >= 0, t < N, *[pos(t, Ls[i], R[i], sn[i]) == p[i] for i in range(n)])), rp)
 
     @task(f"formula.F3[n={n}]", PROP, expect=[F3_ONE, F3_AXIS, F3_SNAKED], covers=["two consecutive steps (hypotheses satisfiable)"])
@@ -553,7 +598,7 @@ def _mk_formula(n):
             x = X(t, R[i])
             add(LEM.inst("k1", x, L), LEM.inst("k2", x, L), LEM.inst("k3", x, L), LEM.inst("k4", x, L))
         moving = [z3.And(carry[i], z3.Not(wraps[i])) for i in range(n)]
-        w.cover("two consecutive steps (hypotheses satisfiable)")
+        cover_at(w, "two consecutive steps (hypotheses satisfiable)", *[L == 2 for L in Ls], t == 0)
         w.check(F3_ONE, Sym(z3.Sum([z3.If(m, 1, 0) for m in moving]) == 1), rp)
         for i in range(n):
             L = Ls[i]
@@ -630,6 +675,16 @@ def lean_lemmas(I):
         w.ok(f"lemma:C26.lean.{name} (Lean 4 kernel)")
 
 
+def evidence_hook(ev, tier):
+    src = LEM.lean_source()
+    try:
+        ver = subprocess.run([LEAN, "--version"], capture_output=True, text=True, timeout=60).stdout.strip()
+    except (OSError, subprocess.TimeoutExpired):
+        ver = "unavailable"
+    ev["coverage"]["lean"] = {"lemmas": list(LEM.LEMMAS), "source_sha256": hashlib.sha256(src.encode()).hexdigest(), "lean": ver,
+                              "imports": "none (core library only)", "generated_by": "contracts/c26_lemmas.py:lean_source"}
+
+
 # ================================================================================================ callers (against the callee's contract)
 OLP = f"{MP}:outer_list_product"
 OP = f"{MP}:outer_product"
@@ -688,7 +743,8 @@ def _mk_callers(n):
         args = [x for pair in zip(motors, seqs) for x in pair]
         out = catch(I, I.get_function(OLP), args, snake_axes)
         flags = axes_as_passed(I, calls, out, motors, seqs)
-        w.check(E_OLP, flags is not None and all(fl is wt for fl, wt in zip(flags, want)),
+        # the flag of the first (slowest) axis has no effect on the trajectory (F1: s_0 = 0); it only has to be a boolean
+        w.check(E_OLP, flags is not None and isinstance(flags[0], bool) and all(fl is wt for fl, wt in zip(flags[1:], want[1:])),
                 {"replay": "snake.callers", "fn": "outer_list_product", "n": n, "mode": mode, "want": want})
 
     @task(f"outer_product[n={n}]", PROP, functions=[OP, f"{MP}:chunk_outer_product_args"], expect=[E_OP])
@@ -719,7 +775,7 @@ def _mk_callers(n):
         out = catch(I, I.get_function(OP), args)
         ok = len(lin) == n and all(l[0] is starts[i] and l[1] is stops[i] and l[2] is nums[i] for i, l in enumerate(lin))
         flags = axes_as_passed(I, calls, out, motors, [l[3] for l in lin]) if ok else None
-        w.check(E_OP, flags is not None and all(fl is wt for fl, wt in zip(flags, flags_in)),
+        w.check(E_OP, flags is not None and isinstance(flags[0], bool) and all(fl is wt for fl, wt in zip(flags[1:], flags_in[1:])),
                 {"replay": "snake.callers", "fn": "outer_product", "n": n})
 
 
@@ -748,6 +804,6 @@ def native_sweep(I):
     if p.returncode != 0 or not line:
         raise EngineError(f"native sweep failed to run: {(p.stdout + p.stderr)[-800:]}")
     r = json.loads(line[-1][6:])
-    if r["grids"] < 1000:
+    if r["grids"] < 1000 and not r["failures"]:
         raise EngineError(f"native sweep covered only {r['grids']} grids")
     I.w.check(E_SWEEP, not r["failures"], {"replay": "snake.sweep_replay", "failures": r["failures"][:3], "grids": r["grids"]})
